@@ -162,7 +162,10 @@ def run(tier: str, seed: int) -> Report:
     rnd = random.Random(seed)
     # quick: the base variant of every kind, plus the multi-identifier ReadDataByIdentifier variants (their
     # echo rule -- the FIRST identifier -- differs from "any requested identifier")
-    active = reqs if deep else [r for r in reqs if r.base or r.kind == "ReadDataByIdentifierRequest"]
+    # ... and every variant of the memory services (explicit formats, announced sizes that differ from the data)
+    MEM = {"ReadDataByIdentifierRequest", "WriteMemoryByAddressRequest", "ReadMemoryByAddressRequest",
+           "DefineByMemoryAddressRequest", "RequestDownloadRequest", "RequestUploadRequest"}
+    active = reqs if deep else [r for r in reqs if r.base or r.kind in MEM]
     pool_src = reqs if deep else active
     pool: list[bytes] = []
     for r in pool_src:
